@@ -19,7 +19,8 @@ type Spec struct {
 	Prop      string `json:"prop"`
 	GenSeed   uint64 `json:"gen_seed"`   // decides the generated scenario
 	SchedSeed uint64 `json:"sched_seed"` // decides every scheduling/fault choice
-	Keep      []int  `json:"keep,omitempty"` // indices of generated ops kept (nil = all); minimisation
+	Masked    bool   `json:"masked,omitempty"` // Keep is in force (minimised run)
+	Keep      []int  `json:"keep,omitempty"`   // indices of generated ops kept when Masked
 	Strategy  int    `json:"strategy"`   // -1 = drawn from SchedSeed
 	Tier      string `json:"tier"`
 	KeepLog   bool   `json:"-"`
@@ -71,7 +72,7 @@ func (c *Ctx) Fault(name string) {
 
 // Kept reports whether generated op i survives the minimisation mask.
 func (c *Ctx) Kept(i int) bool {
-	if c.Spec.Keep == nil {
+	if !c.Spec.Masked {
 		return true
 	}
 	for _, k := range c.Spec.Keep {
@@ -132,6 +133,10 @@ func RunOne(t *testing.T, spec Spec) (res *Result) {
 			if sg.Intn(5) == 0 {
 				cfg.DelayPermille = 5 + sg.Intn(40)
 			}
+			if sg.Intn(5) < 2 {
+				cfg.FocusMod = 60 + sg.Intn(240)
+				cfg.FocusBudget = 1 + sg.Intn(3)
+			}
 			if p.MaxSteps > 0 {
 				cfg.MaxSteps = p.MaxSteps
 			}
@@ -166,6 +171,7 @@ func RunOne(t *testing.T, spec Spec) (res *Result) {
 				res.Probes["step_limit"]++
 			}
 			res.Faults["delay_hold"] += s.Holds
+			res.Faults["site_focused_hold"] += s.FocusHolds
 			res.Faults["queue_full_injected"] += s.Drops
 			res.Probes["time_advances"] += s.TimeAdvances
 			res.Probes["steps_multi_enabled"] += s.MultiEnabled
@@ -177,7 +183,7 @@ func RunOne(t *testing.T, spec Spec) (res *Result) {
 				res.Log = s.LogLines()
 			}
 			if len(res.Violations) > 0 {
-				res.Live = s.Live()
+				res.Live = s.LiveAtEnd
 			}
 		})
 	})
